@@ -51,3 +51,21 @@ Theorem C03_consistent_is_faithful :
     forall n id t, resolve_type_path r s id = Ok t -> shape_rust m s n t = shape_reg r s n id.
 Proof. exact generate_faithful. Qed.
 Print Assumptions C03_consistent_is_faithful.
+
+(** ... explicitly: the type expression named for a member X (at id) of a same-path family is
+    the path of the ONE item kept for that path (the IR of the first member) applied to X's
+    own resolved arguments, and that item so instantiated has the registry shape of X *)
+Theorem C03_member_represented :
+  forall r s teq m,
+    skeleton_consistent r s -> root_fresh s -> generate r s teq = Ok m ->
+    forall id X t,
+      resolve r id = Some X -> item_eligible s X = true ->
+      path_ident (t_path X) <> Some "Cow"%string ->
+      resolve_type_path r s id = Ok t ->
+      exists params id0 X0 ir0,
+        t = TPath (rel_path (s_root s :: t_path X)) params /\
+        first_eligible r s (t_path X) = Some (id0, X0) /\
+        items_get m (t_path X) = Some (id0, ir0) /\
+        forall n, item_shape m s n ir0 params = shape_reg r s (S n) id.
+Proof. exact member_represented. Qed.
+Print Assumptions C03_member_represented.
